@@ -989,11 +989,11 @@ def _mk(fmt, outside):
 CHECKS = []
 for _f in FORMATS:
     CHECKS.append(Check(f"{_f}_roundtrip", check_roundtrip, strategy=_mk(_f, False),
-                        budget={"quick": 2400, "thorough": 40000},
+                        budget={"quick": 2000, "thorough": 40000},
                         rule=f"{_f}: isotherm_from_{_f}(isotherm_to_{_f}(x)) field by field and ==, content inside the domain"))
 for _f in FORMATS:
     CHECKS.append(Check(f"{_f}_outside", check_outside, strategy=_mk(_f, True),
-                        budget={"quick": 1200, "thorough": 20000},
+                        budget={"quick": 1000, "thorough": 20000},
                         rule=f"{_f}: one entry outside the value domain: pgError or exact round trip"))
 
 
